@@ -158,7 +158,14 @@ def _param_oracle(case, shim, labels):
         if r["notconverged"]:
             return Outcome.inconclusive("scf_not_converged", labels)
         y = r[case["output"]]
-        g = torch.autograd.grad(y, leaf, allow_unused=True)[0] if y.requires_grad else None
+        try:
+            with silence():
+                g = torch.autograd.grad(y, leaf, allow_unused=True)[0] if y.requires_grad else None
+        except RuntimeError as e:
+            if "did not converge" in str(e) or "not converge" in str(e):
+                # the implicit adjoint says so itself (e.g. MNDO PH3 with Pulay, C04's recorded high-energy state): an honest failure signal
+                return Outcome.inconclusive("scf_backward_not_converged", labels)
+            return Outcome.fail("backward_pass_raises", f"d {case['output']} / d {name}: {type(e).__name__}: {str(e)[:160]} ({case['method']} {case['tpl']}, scf_backward={case['backward']})", labels, True)
         unreached = g is None
         if unreached:
             g = torch.zeros_like(leaf)      # legitimate when the output does not depend on the parameter (decided by the FD below)
@@ -286,6 +293,10 @@ class Geometry(SubCheck):
                 try:
                     es(mol, learned_parameters=net)
                 except Exception as e:
+                    if "not converge" in str(e):
+                        # e.g. AM1 H2S with Pulay: the forward SCF lands on C04's recorded high-energy state (gap 0.17 eV) and the implicit
+                        # adjoint reports its own divergence -- an honest failure signal, not a wrong derivative
+                        return Outcome.inconclusive("scf_backward_not_converged", labels)
                     return Outcome.fail("callable_parameters_rejected", f"learned_parameters as a callable of the geometry ({name}, {case['method']} {case['tpl']}): {type(e).__name__}: {str(e)[:160]}", labels, True)
             if bool(torch.as_tensor(es.notconverged).any()):
                 return Outcome.inconclusive("scf_not_converged", labels)
